@@ -74,6 +74,24 @@ func (p *Prog) Cursor() *Cursor {
 							cur.E = ef.Field
 						}
 					}
+					// … or handed, with the reader, to a helper that stores it there (`b.fail(err)`)
+					if hc, ok := r.(*ssa.Call); ok && cur.E < 0 {
+						sc := hc.Call.StaticCallee()
+						if sc == nil || len(sc.Blocks) == 0 || len(hc.Call.Args) < 2 || hc.Call.Args[0] != ssa.Value(fn.Params[0]) {
+							continue
+						}
+						for _, hb := range sc.Blocks {
+							for _, hi := range hb.Instrs {
+								if s, ok := hi.(*ssa.Store); ok {
+									if ef, ok := s.Addr.(*ssa.FieldAddr); ok && ef.X == ssa.Value(sc.Params[0]) && isErrorType(st.Field(ef.Field).Type()) {
+										if _, isP := s.Val.(*ssa.Parameter); isP {
+											cur.E = ef.Field
+										}
+									}
+								}
+							}
+						}
+					}
 				}
 			}
 		}
@@ -171,6 +189,11 @@ func (cur *Cursor) CheckLemmas(p *Prog, c *Check, rule string) bool {
 				if !ok {
 					continue
 				}
+				// the reader overwritten as a whole (`*b = buffer{data: rest}`): data, offset and the sticky error
+				// change at once, the error back to nil
+				if pt, ok := s.Addr.Type().Underlying().(*types.Pointer); ok && types.Identical(pt.Elem(), cur.T) {
+					fail(tn+" overwritten as a whole in "+qname(fn), posOf(p, ins), "the reader is assigned as a whole struct value: the sticky error is reset to nil (what an earlier field rejected is forgotten) and the offset restarts on other data", Violated)
+				}
 				if base, ok := cur.isField(s.Addr, cur.D); ok {
 					nD++
 					if _, isAlloc := base.(*ssa.Alloc); !isAlloc {
@@ -190,14 +213,59 @@ func (cur *Cursor) CheckLemmas(p *Prog, c *Check, rule string) bool {
 						fail(tn+".offset written outside get", posOf(p, ins), "the reader's offset is stored to in "+qname(fn)+", outside the guarded primitive "+qname(g), Violated)
 					}
 				}
-				if _, ok := cur.isField(s.Addr, cur.E); ok && fn != g {
+				if ebase, ok := cur.isField(s.Addr, cur.E); ok && fn != g {
 					nE++
 					if pr == nil {
 						pr = NewProver(p, fn)
 					}
-					if !pr.NonNil(s.Val, b, 0) {
-						fail(tn+".err overwritten in "+qname(fn), posOf(p, ins), "the sticky error may be overwritten with a possibly-nil value", Violated)
+					if pr.NonNil(s.Val, b, 0) {
+						continue
 					}
+					// stored only where no error is recorded yet (`if b.err == nil { b.err = err }`): nothing is overwritten
+					guarded := false
+					for _, dc := range domConds(b) {
+						if subj, isNil, ok := nilTestOf(dc.cond, dc.truth); ok && isNil {
+							if ld, ok := subj.(*ssa.UnOp); ok && ld.Op == token.MUL {
+								if lb, ok := cur.isField(ld.X, cur.E); ok && lb == ebase {
+									guarded = true
+								}
+							}
+						}
+					}
+					if guarded {
+						continue
+					}
+					// a helper that stores its parameter: every caller outside the guarded primitive (which accounts
+					// for its own calls path by path) must hand it a non-nil error
+					if k := cur.errSetterParam(fn); k >= 0 {
+						okSites := true
+						for _, cf := range p.AllFuncs() {
+							if cf == g {
+								continue
+							}
+							var cpr *Prover
+							for _, cb := range cf.Blocks {
+								for _, ci := range cb.Instrs {
+									call, isCall := ci.(*ssa.Call)
+									if !isCall || call.Call.StaticCallee() != fn || k >= len(call.Call.Args) {
+										continue
+									}
+									if cpr == nil {
+										cpr = NewProver(p, cf)
+									}
+									if !cpr.NonNil(call.Call.Args[k], cb, 0) {
+										okSites = false
+										fail(tn+".err overwritten through "+qname(fn)+" in "+qname(cf), posOf(p, ci), "the sticky error may be overwritten with a possibly-nil value", Violated)
+									}
+								}
+							}
+						}
+						if okSites {
+							continue
+						}
+						continue
+					}
+					fail(tn+".err overwritten in "+qname(fn), posOf(p, ins), "the sticky error may be overwritten with a possibly-nil value", Violated)
 				}
 			}
 		}
@@ -206,68 +274,373 @@ func (cur *Cursor) CheckLemmas(p *Prog, c *Check, rule string) bool {
 		c.OK(rule, tn+" field discipline", p.Pos(g.Pos()), fmt.Sprintf("data is written only at construction (%d sites), the offset only inside %s (%d sites), the error elsewhere only with non-nil values (%d sites)", nD, qname(g), nI, nE))
 	}
 
-	// G — shape of the guarded primitive
+	// G — the guarded primitive, path by path.  G is loop free; every entry→return path is walked with the state
+	// of the reader's error and offset as the path leaves them:
+	//   sticky   on a path where the error was set on entry nothing is stored or called;
+	//   error    the path leaves with a non-nil error stored (directly, or through a helper of the reader that
+	//            stores its argument in the error field) and the offset untouched; or
+	//   advance  the offset is stored once, as old offset + width() of the value just decoded, proven within
+	//            [0, len(data)] under the conditions of the path, the decoder's result having been found nil and
+	//            the error field being nil when the path leaves.
 	pr := NewProver(p, g)
 	pr.cur = cur
 	pr.assumeContracts()
-	recv := g.Params[0]
-	entry := g.Blocks[0]
-	var noop *ssa.BasicBlock
-	if iff, ok := terminator(entry).(*ssa.If); ok {
-		if bo, ok := iff.Cond.(*ssa.BinOp); ok && (bo.Op == token.NEQ || bo.Op == token.EQL) && isNilConst(bo.Y) {
-			if ld, ok := bo.X.(*ssa.UnOp); ok && ld.Op == token.MUL {
-				if base, ok := cur.isField(ld.X, cur.E); ok && base == ssa.Value(recv) {
-					if bo.Op == token.NEQ {
-						noop = entry.Succs[0]
-					} else {
-						noop = entry.Succs[1]
-					}
+	recv := ssa.Value(g.Params[0])
+	cons := qname(g)
+	if len(AllLoops(g)) > 0 {
+		fail(cons+"#paths", p.Pos(g.Pos()), "the guarded primitive contains a loop", Undecided)
+		return false
+	}
+	type pathState struct {
+		entryE     int // 0 unknown, 1 nil, 2 non-nil
+		eStored    ssa.Value
+		eStoreAt   *ssa.BasicBlock
+		eHelper    bool
+		iStores    []*ssa.Store
+		loadsE     map[ssa.Value]ssa.Value // load of E -> the value it yields (nil entry = the entry value)
+		loadsEntry map[ssa.Value]bool
+		isNil      map[ssa.Value]bool // value known nil (true) / non-nil (false) on this path
+		facts      []Lin
+		acted      string // first store/call made while the entry error was not known to be nil
+		unmSeen    bool
+		unknown    string
+	}
+	clone := func(st *pathState) *pathState {
+		c := *st
+		c.iStores = append([]*ssa.Store(nil), st.iStores...)
+		c.facts = append([]Lin(nil), st.facts...)
+		c.loadsE, c.loadsEntry, c.isNil = map[ssa.Value]ssa.Value{}, map[ssa.Value]bool{}, map[ssa.Value]bool{}
+		for k, v := range st.loadsE {
+			c.loadsE[k] = v
+		}
+		for k, v := range st.loadsEntry {
+			c.loadsEntry[k] = v
+		}
+		for k, v := range st.isNil {
+			c.isNil[k] = v
+		}
+		return &c
+	}
+	// nil test: (subject, nil-on-this-side)
+	var nilTest2 func(cond ssa.Value, truth bool) (ssa.Value, bool, bool)
+	nilTest2 = func(cond ssa.Value, truth bool) (ssa.Value, bool, bool) {
+		switch x := cond.(type) {
+		case *ssa.UnOp:
+			if x.Op == token.NOT {
+				return nilTest2(x.X, !truth)
+			}
+		case *ssa.BinOp:
+			var other ssa.Value
+			if isNilConst(x.Y) {
+				other = x.X
+			} else if isNilConst(x.X) {
+				other = x.Y
+			} else {
+				return nil, false, false
+			}
+			if x.Op == token.EQL {
+				return other, truth, true
+			}
+			if x.Op == token.NEQ {
+				return other, !truth, true
+			}
+		}
+		return nil, false, false
+	}
+	npaths, nsticky, nerr, nadv := 0, 0, 0, 0
+	stickyBad := false
+	problems := map[string]bool{}
+	report := func(b *ssa.BasicBlock, why string, stt Status) {
+		rcons := fmt.Sprintf("%s#exit@b%d", cons, exitOrdinal(g, b))
+		if problems[rcons+why] {
+			return
+		}
+		problems[rcons+why] = true
+		fail(rcons, posOf(p, terminator(b)), why, stt)
+	}
+	finish := func(b *ssa.BasicBlock, st *pathState) {
+		npaths++
+		if st.unknown != "" {
+			report(b, "exit that neither sets a non-nil error nor advances the offset within bounds: "+st.unknown, Undecided)
+			return
+		}
+		if st.acted != "" {
+			stickyBad = true
+			fail(cons+"#sticky", p.Pos(g.Pos()), "the primitive acts ("+st.acted+") on a path on which the error set by an earlier read has not been found nil: reads continue after a failure", Violated)
+			return
+		}
+		if st.entryE == 2 {
+			nsticky++
+			return
+		}
+		if st.entryE == 0 {
+			// nothing was done and nothing is known: a path that returns at once
+			nsticky++
+			return
+		}
+		// the error field as the path leaves it
+		eNonNil, eNil := false, st.eStored == nil
+		if st.eStored != nil {
+			if known, has := st.isNil[st.eStored]; has {
+				eNil, eNonNil = known, !known
+			} else if pr.NonNil(st.eStored, st.eStoreAt, 0) {
+				eNonNil = true
+			} else if ld, ok := st.eStored.(*ssa.UnOp); ok && ld.Op == token.MUL {
+				if gl, ok := ld.X.(*ssa.Global); ok && p.nonNilGlobalValue(gl) {
+					eNonNil = true
 				}
 			}
 		}
-	}
-	cons := qname(g)
-	if noop == nil {
-		fail(cons+"#sticky", p.Pos(g.Pos()), "the primitive does not start with `if err != nil { return }`: reads continue after a failure", Violated)
-		return false
-	}
-	pure := true
-	for _, ins := range entry.Instrs {
-		switch ins.(type) {
-		case *ssa.Store, *ssa.Call, *ssa.MapUpdate:
-			pure = false
+		if len(st.iStores) == 0 {
+			if eNonNil {
+				nerr++
+				return
+			}
+			why := "no state change before this exit"
+			if st.eStored != nil {
+				why = "the error stored before this exit may be nil"
+			}
+			report(b, "exit that neither sets a non-nil error nor advances the offset within bounds: "+why, Undecided)
+			return
 		}
-	}
-	for _, ins := range noop.Instrs {
-		switch ins.(type) {
-		case *ssa.Return, *ssa.DebugRef:
+		why := ""
+		switch {
+		case len(st.iStores) > 1:
+			why = "the offset is stored more than once on a path"
+		case cur.Width == nil:
+			why = "no width() call"
+		case !st.unmSeen:
+			why = "the offset is advanced on a path that does not decode a value"
+		case !eNil:
+			why = "offset advanced although the error may have been set"
 		default:
-			pure = false
+			if known, has := st.isNil[ssa.Value(cur.Unm)]; !has || !known {
+				why = "offset advanced although the decoder's result has not been found nil"
+			}
 		}
-	}
-	if !pure {
-		fail(cons+"#sticky", p.Pos(g.Pos()), "the error path of the primitive is not a plain return", Violated)
-	} else {
-		c.OK(rule, cons+"#sticky", posOf(p, terminator(entry)), "no-op once the error is set")
-	}
-	// every other exit: error set non-nil, or offset advanced within bounds
-	for _, b := range g.Blocks {
-		ret, ok := terminator(b).(*ssa.Return)
-		if !ok || b == noop {
-			continue
+		if why == "" {
+			is := st.iStores[0]
+			val := pr.lin(is.Val)
+			wl := pr.lin(cur.Width)
+			var old Lin
+			found := false
+			for a := range val.coef {
+				if a != pr.key(cur.Width) {
+					old = linAtom(a)
+					found = true
+				}
+			}
+			dlen := pr.lenOf(cur.dLoad(pr))
+			switch {
+			case !found || !val.equal(old.add(wl)):
+				why = "the offset is not advanced by exactly width(): " + val.String()
+			case !pr.Prove(is.Block(), dlen.sub(val), st.facts...):
+				why = "cannot prove offset+width <= len(data) at the advancing store (facts: " + describeFacts(pr, is.Block()) + ")"
+			case !pr.Prove(is.Block(), val, st.facts...):
+				why = "cannot prove the new offset non-negative"
+			}
 		}
-		kind, why := cur.classifyExit(p, pr, b)
-		rcons := fmt.Sprintf("%s#exit@b%d", cons, exitOrdinal(g, b))
-		switch kind {
-		case "error":
-			c.OK(rule, rcons, posOf(p, ret), "exit with the error set to a non-nil value: "+why)
-		case "advance":
-			c.OK(rule, rcons, posOf(p, ret), "exit after advancing the offset by width() with offset+width <= len(data) proven: "+why)
+		if why != "" {
+			report(b, "exit that neither sets a non-nil error nor advances the offset within bounds: "+why, Undecided)
+			return
+		}
+		nadv++
+	}
+	var walk func(b *ssa.BasicBlock, st *pathState, depth int)
+	walk = func(b *ssa.BasicBlock, st *pathState, depth int) {
+		if npaths > 512 || depth > 64 {
+			return
+		}
+		act := func(what string) {
+			if st.entryE != 1 && st.acted == "" {
+				st.acted = what
+			}
+		}
+		for _, ins := range b.Instrs {
+			switch x := ins.(type) {
+			case *ssa.UnOp:
+				if x.Op == token.MUL {
+					if base, ok := cur.isField(x.X, cur.E); ok && base == recv {
+						if st.eStored == nil {
+							st.loadsEntry[x] = true
+						} else {
+							st.loadsE[x] = st.eStored
+						}
+					}
+				}
+			case *ssa.Store:
+				if base, ok := cur.isField(x.Addr, cur.E); ok && base == recv {
+					act("stores the error at " + posOf(p, x))
+					st.eStored, st.eStoreAt, st.eHelper = x.Val, b, false
+				} else if base, ok := cur.isField(x.Addr, cur.I); ok && base == recv {
+					act("moves the offset at " + posOf(p, x))
+					st.iStores = append(st.iStores, x)
+				} else if rootOfAddr(x.Addr) == recv {
+					st.unknown = "the primitive writes another part of the reader at " + posOf(p, x)
+				}
+			case *ssa.Call:
+				if _, isB := x.Call.Value.(*ssa.Builtin); isB {
+					continue
+				}
+				switch {
+				case x == cur.Unm:
+					act("decodes at " + posOf(p, x))
+					st.unmSeen = true
+				case x == cur.Width:
+				default:
+					usesRecv := false
+					for _, a := range x.Call.Args {
+						if a == recv {
+							usesRecv = true
+						}
+					}
+					if !usesRecv {
+						if x.Call.IsInvoke() {
+							act("calls " + x.Call.Method.Name() + " at " + posOf(p, x))
+						}
+						continue
+					}
+					sc := x.Call.StaticCallee()
+					if k := cur.errSetterParam(sc); k >= 0 && k < len(x.Call.Args) {
+						act("records an error at " + posOf(p, x))
+						st.eStored, st.eStoreAt, st.eHelper = x.Call.Args[k], b, true
+						continue
+					}
+					if sc != nil && p.allEffects().Summary(sc) != nil && len(p.allEffects().Summary(sc).Writes) == 0 {
+						continue // a pure helper of the reader (remaining(), atEnd())
+					}
+					st.unknown = "the reader is handed to " + x.String() + " at " + posOf(p, x) + ", whose effect on it is not known"
+				}
+			}
+		}
+		switch t := terminator(b).(type) {
+		case *ssa.Return:
+			finish(b, st)
+		case *ssa.Jump:
+			walk(b.Succs[0], st, depth+1)
+		case *ssa.If:
+			for side := 0; side < 2; side++ {
+				truth := side == 0
+				ns := clone(st)
+				if subj, isNil, ok := nilTest2(t.Cond, truth); ok {
+					switch {
+					case ns.loadsEntry[subj]:
+						want := 1
+						if !isNil {
+							want = 2
+						}
+						if ns.entryE != 0 && ns.entryE != want {
+							continue // infeasible
+						}
+						ns.entryE = want
+					default:
+						if v, has := ns.loadsE[subj]; has {
+							subj = v
+						}
+						if known, has := ns.isNil[subj]; has && known != isNil {
+							continue // infeasible
+						}
+						ns.isNil[subj] = isNil
+					}
+				} else {
+					cf := pr.condFacts(t.Cond, truth)
+					contradicts := false
+					for _, gq := range cf {
+						if pr.Prove(b, gq.scale(-1).addConst(-1), ns.facts...) {
+							contradicts = true
+						}
+					}
+					if contradicts {
+						continue
+					}
+					ns.facts = append(ns.facts, cf...)
+				}
+				walk(b.Succs[side], ns, depth+1)
+			}
 		default:
-			fail(rcons, posOf(p, ret), "exit that neither sets a non-nil error nor advances the offset within bounds: "+why, Undecided)
+			st.unknown = "unexpected control flow"
+			finish(b, st)
 		}
+	}
+	walk(g.Blocks[0], &pathState{loadsE: map[ssa.Value]ssa.Value{}, loadsEntry: map[ssa.Value]bool{}, isNil: map[ssa.Value]bool{}}, 0)
+	if npaths > 512 {
+		fail(cons+"#paths", p.Pos(g.Pos()), "too many paths through the guarded primitive", Undecided)
+	}
+	if nsticky == 0 {
+		fail(cons+"#sticky", p.Pos(g.Pos()), "the primitive has no path that returns at once when the error is already set: reads continue after a failure", Violated)
+	} else if !stickyBad {
+		c.OK(rule, cons+"#sticky", p.Pos(g.Pos()), "no-op once the error is set")
+	}
+	if okAll {
+		c.OK(rule, cons+"#exits", p.Pos(g.Pos()), fmt.Sprintf("%d paths: %d leave with a non-nil error stored and the offset untouched, %d after advancing the offset by width() with offset+width <= len(data) proven under the path's conditions and the decoder's result found nil", npaths, nerr, nadv))
+	}
+	if nadv == 0 {
+		fail(cons+"#exits", p.Pos(g.Pos()), "no path advances the offset", Undecided)
 	}
 	return okAll
+}
+
+// nilTestOf: cond==truth tests a value against nil: (the value, is-nil on this side).
+func nilTestOf(cond ssa.Value, truth bool) (ssa.Value, bool, bool) {
+	switch x := cond.(type) {
+	case *ssa.UnOp:
+		if x.Op == token.NOT {
+			return nilTestOf(x.X, !truth)
+		}
+	case *ssa.BinOp:
+		var other ssa.Value
+		if isNilConst(x.Y) {
+			other = x.X
+		} else if isNilConst(x.X) {
+			other = x.Y
+		} else {
+			return nil, false, false
+		}
+		if x.Op == token.EQL {
+			return other, truth, true
+		}
+		if x.Op == token.NEQ {
+			return other, !truth, true
+		}
+	}
+	return nil, false, false
+}
+
+// errSetterParam: fn is a helper of the reader whose only effect is to store one of its parameters in the
+// reader's error field (possibly only when no error is recorded yet): returns that parameter's index, else -1.
+func (cur *Cursor) errSetterParam(fn *ssa.Function) int {
+	if fn == nil || len(fn.Blocks) == 0 || len(fn.Params) < 2 {
+		return -1
+	}
+	k := -1
+	for _, b := range fn.Blocks {
+		for _, ins := range b.Instrs {
+			switch x := ins.(type) {
+			case *ssa.Store:
+				base, ok := cur.isField(x.Addr, cur.E)
+				if !ok || base != ssa.Value(fn.Params[0]) {
+					return -1
+				}
+				pi := -1
+				for i, prm := range fn.Params {
+					if x.Val == ssa.Value(prm) {
+						pi = i
+					}
+				}
+				if pi < 1 || (k >= 0 && k != pi) {
+					return -1
+				}
+				k = pi
+			case *ssa.Call:
+				if _, isB := x.Call.Value.(*ssa.Builtin); !isB {
+					return -1
+				}
+			case *ssa.MapUpdate, *ssa.Send, *ssa.Go, *ssa.Defer:
+				return -1
+			}
+		}
+	}
+	return k
 }
 
 func exitOrdinal(fn *ssa.Function, b *ssa.BasicBlock) int {
